@@ -241,6 +241,18 @@ def c08d(tree, ob):
             ob.violate(BLOCKS, cname, 'ConditionalField(BstrField(crc_value), crc_type != 0)', 'the CRC field is not the last item, present exactly when the CRC type is non-zero', f.node)
         else:
             ob.site(BLOCKS, f.node, cname + ': CRC bstr last, iff crc_type != 0')
+    # surplus array items (e.g. a CRC item behind a CRC type corrupted to 0) must not be silently dropped: the block
+    # classes rely on the inherited payload dissection, which fails on leftover items; an override that swallows them
+    # turns such a block into an accepted "type 0" block
+    for cname in ('AbstractBlock', 'PrimaryBlock', 'CanonicalBlock'):
+        for m in tree.klass(BLOCKS, cname).body:
+            if isinstance(m, ast.FunctionDef) and m.name in ('do_dissect_payload', 'extract_padding'):
+                delegates = any(isinstance(c.func, ast.Attribute) and c.func.attr == m.name and c is not m for c in calls_in(m))
+                raises = any(isinstance(x, ast.Raise) for x in walk_local(m))
+                if not delegates and not raises:
+                    ob.violate(BLOCKS, cname + '.' + m.name, 'def {}(self, s): (ignores s)'.format(m.name), 'items left over after the declared fields are silently ignored: a block whose CRC-type '
+                               'octet is corrupted to 0 keeps its CRC item as a surplus item and is accepted unchecked', m)
+    ob.site(BLOCKS, tree.klass(BLOCKS, 'CanonicalBlock'), 'block classes do not swallow surplus array items')
     # type 0: no CRC value on output, none accepted on input
     fu = FuncView(tree, BLOCKS, 'AbstractBlock.update_crc')
     nones = [n for n in walk_local(fu.func) if isinstance(n, ast.Assign) and src(n.targets[0]) == 'crc_value' and isinstance(n.value, ast.Constant) and n.value.value is None]
